@@ -144,6 +144,26 @@ m('optalloc-mt-unclamped', 'C19', 'OPT-ALLOC', 'src/enc/lzma2_writer_mt.rs',
 m('optalloc-lzip-unclamped', 'C19', 'OPT-ALLOC', 'src/lzip/writer_mt.rs',
   'Vec::with_capacity((member_size as usize).min(1024 * 1024))', 'Vec::with_capacity(member_size as usize)', 'LZIPWriterMT::new:with_capacity')
 
+m('lzma-reader-no-latch', 'C06', 'READ-ERR-LATCH', 'src/lzma_reader.rs', '        self.failed = result.is_err();\n', '', '<LZMAReader as Read>::read:error-is-sticky')
+m('lzip-reader-no-latch', 'C06', 'READ-ERR-LATCH', 'src/lzip/reader.rs', '        self.failed = result.is_err();\n', '', '<LZIPReader as Read>::read:error-is-sticky')
+m('bcj-latches-interrupted', 'C05', 'INTERRUPT-LATCH', 'src/filter/bcj.rs',
+  '                    #[cfg(feature = "std")]\n                    Err(e) if e.kind() == std::io::ErrorKind::Interrupted => {}\n', '', '<BCJReader as Read>::read:err-arm-of-inner-read')
+m('xz-probe-no-retry', 'C05', 'INTERRUPT-RETRY', 'src/xz/reader.rs',
+  '                #[cfg(feature = "std")]\n                Err(error) if error.kind() == std::io::ErrorKind::Interrupted => {}\n', '', 'XZReader::read_byte:read-into-own-buffer')
+m('xz-trailing-padding-unchecked', 'C12', 'STREAM-RESET', 'src/xz/reader.rs',
+  '                if padding_bytes % 4 != 0 {\n                    return Err(error_invalid_data("stream padding size not multiple of 4"));\n                }\n                return Ok(false);',
+  '                return Ok(false);', 'trailing-padding-multiple-of-4')
+m('mt-sink-error-not-sticky', 'C09', 'SINK-ERR-STICKY', 'src/enc/lzma2_writer_mt.rs', '            self.state = State::Error;\n            let error = io::Error::new(error.kind(), error.to_string());', '            let error = io::Error::new(error.kind(), error.to_string());', 'LZMA2WriterMT::write_to_sink:sink-write_all')
+m('lzipmt-scan-break', 'C04', 'SCAN-TO-ZERO', 'src/lzip/reader_mt.rs',
+  '                // Too short for a member: this is not the start of the file\'s first member.\n                self.inner = Some(reader);\n                return Err(error_invalid_data(\n                    "unexpected data before the first LZIP member",\n                ));',
+  '                break;', 'LZIPReaderMT::scan_members:scan-of-current_pos')
+m('lzma2-window-empty', 'C06', 'WINDOW-ALIGN', 'src/lzma2_reader.rs', '(dict_size.max(4096) as u64 + 15) & !15', '(dict_size as u64 + 15) & !15', 'LZMA2Reader::new:window-not-empty')
+m('preset-window-shrunk', 'C01', 'WINDOW-PRESET', 'src/lzma_reader.rs', 'if !has_preset && uncomp_size', 'if uncomp_size', 'LZMAReader::construct2:window-keeps-preset')
+m('asm-dispatch-unguarded', 'C14', 'ASM-DISPATCH', 'src/range_dec.rs',
+  '            if self.inner.is_buffer()\n                && count > 0\n                && self.inner.buf().len().saturating_sub(self.inner.pos())\n                    >= count as usize / 8 + 2\n            {\n                return self.decode_direct_bits_x86_64(count);',
+  '            if self.inner.is_buffer() && count > 0 {\n                return self.decode_direct_bits_x86_64(count);', 'decode_direct_bits:dispatch')
+m('hash3-not-estimated', 'C17', 'ESTIMATE-TWIN', 'src/lz/hash234.rs', '(HASH2_SIZE + HASH3_SIZE + Self::get_hash4_size(dict_size))', '(HASH2_MASK + HASH2_SIZE + Self::get_hash4_size(dict_size))', 'Hash234::get_mem_usage~Hash234::new')
+
 M = [x for x in M if x['old'] is not None]
 
 
